@@ -77,8 +77,29 @@ func (in *inst) unknownResults(st *State, sig *types.Signature, prefix string) [
 func (fv *FnVC) havocAll(st *State, why string) {
 	fv.note("havoc of all memory: " + why)
 	fv.epoch++
-	for k := range st.heaps {
-		delete(st.heaps, k)
+	if fv.private != "" {
+		// memory owned by the private root is unreachable for the callee
+		priv := fv.private
+		region := func(l string) string { return not(eq("(root "+l+")", "(root "+priv+")")) }
+		var keys []string
+		for k := range st.heaps {
+			keys = append(keys, k)
+		}
+		sort.Strings(keys)
+		for _, k := range keys {
+			h := st.heaps[k]
+			sym := fv.decl(h.info.name+"v", fv.arrSort(h.info))
+			hv := &havoc{sym: sym, parent: h, region: region, done: map[string]bool{}}
+			st.heaps[k] = &Heap{term: sym, info: h.info, havocs: []*havoc{hv}}
+		}
+		if fv.privEpochs == nil {
+			fv.privEpochs = map[int]*privEpoch{}
+		}
+		fv.privEpochs[fv.epoch] = &privEpoch{prev: st.epoch, region: region}
+	} else {
+		for k := range st.heaps {
+			delete(st.heaps, k)
+		}
 	}
 	st.epoch = fv.epoch
 	a := fv.decl("alloc", "Int")
@@ -261,7 +282,14 @@ func (in *inst) invoke(n *vnode, st *State, recv Val, it types.Type, m *types.Fu
 		env[nm] = args[i]
 		env[fmt.Sprintf("a%d", i)] = args[i]
 	}
-	return resultVal(sig, in.applyContract(n, st, ct, key, m.Pkg(), env, sig, pos))
+	rs := in.applyContract(n, st, ct, key, m.Pkg(), env, sig, pos)
+	if st.ghost == nil {
+		st.ghost = map[string]Val{}
+	}
+	for i, r := range rs {
+		st.ghost[fmt.Sprintf("%s.%d", m.Name(), i)] = r
+	}
+	return resultVal(sig, rs)
 }
 
 // resultNames returns the names by which a contract refers to results.
@@ -761,14 +789,77 @@ func (in *inst) runDefers(n *vnode, st *State, x *ssa.RunDefers) {
 // loops cut by invariants
 // ---------------------------------------------------------------------------
 
-// loopWrites computes which heap keys the body of l may write; ok=false
-// means "anything" (a call with unknown effects).
-func (in *inst) loopWrites(l *loopInfo) (keys map[string]string, anything bool) {
+// writeShape describes which locations of one heap a loop may write: any
+// (total), array/slice elements, and/or fields with given indices.
+type writeShape struct {
+	sort   string
+	total  bool
+	elems  bool
+	fields map[int]bool
+}
+
+func (w *writeShape) pred(l string) string {
+	if w.total {
+		return "true"
+	}
+	var ds []string
+	if w.elems {
+		ds = append(ds, "(isLElem "+l+")")
+	}
+	if len(w.fields) > 0 {
+		var fs []int
+		for f := range w.fields {
+			fs = append(fs, f)
+		}
+		sort.Ints(fs)
+		var es []string
+		for _, f := range fs {
+			es = append(es, eq("(fidx "+l+")", fmt.Sprint(f)))
+		}
+		ds = append(ds, and("(isLField "+l+")", or(es...)))
+	}
+	return or(ds...)
+}
+
+// loopWrites computes, per heap key, which pre-existing locations the body
+// of l may write; anything=true means a call with unknown effects.
+func (in *inst) loopWrites(l *loopInfo) (keys map[string]*writeShape, anything bool) {
 	fv := in.fv
-	keys = map[string]string{}
-	addLeafs := func(t types.Type) {
-		in.forEachLeaf(t, func(_ []int, lt types.Type) {
-			keys[leafKey(lt)] = fv.zeroVal(lt).sortOf()
+	keys = map[string]*writeShape{}
+	get := func(k, srt string) *writeShape {
+		w := keys[k]
+		if w == nil {
+			w = &writeShape{sort: srt, fields: map[int]bool{}}
+			keys[k] = w
+		}
+		return w
+	}
+	// a store of a value of type t at an address of the given kind
+	addStore := func(t types.Type, addr ssa.Value) {
+		in.forEachLeaf(t, func(path []int, lt types.Type) {
+			w := get(leafKey(lt), fv.zeroVal(lt).sortOf())
+			if len(path) > 0 {
+				w.fields[path[len(path)-1]] = true
+				return
+			}
+			switch a := addr.(type) {
+			case *ssa.FieldAddr:
+				w.fields[a.Field] = true
+			case *ssa.IndexAddr:
+				w.elems = true
+			default:
+				w.total = true
+			}
+		})
+	}
+	addElems := func(t types.Type) {
+		in.forEachLeaf(t, func(path []int, lt types.Type) {
+			w := get(leafKey(lt), fv.zeroVal(lt).sortOf())
+			if len(path) > 0 {
+				w.fields[path[len(path)-1]] = true
+			} else {
+				w.elems = true
+			}
 		})
 	}
 	var blocks []*ssa.BasicBlock
@@ -782,31 +873,13 @@ func (in *inst) loopWrites(l *loopInfo) (keys map[string]string, anything bool) 
 			for _, ins := range b.Instrs {
 				switch x := ins.(type) {
 				case *ssa.Store:
-					addLeafs(x.Val.Type())
-				case *ssa.Alloc:
-					addLeafs(x.Type().(*types.Pointer).Elem())
+					addStore(x.Val.Type(), x.Addr)
 				case *ssa.MapUpdate:
 					ms := fv.mapSorts(x.Map.Type())
 					if ms.ok {
-						keys["Mdom:"+ms.key] = ms.domSort()
-						keys["Mval:"+ms.key] = ms.valSort()
-						keys["Mlen:"+ms.key] = bvSort(64)
-					}
-				case *ssa.MakeMap:
-					ms := fv.mapSorts(x.Type())
-					if ms.ok {
-						keys["Mdom:"+ms.key] = ms.domSort()
-						keys["Mlen:"+ms.key] = bvSort(64)
-					}
-				case *ssa.MakeSlice:
-					addLeafs(x.Type().Underlying().(*types.Slice).Elem())
-				case *ssa.MakeInterface:
-					if k, _, _ := kindOf(x.X.Type()); k != KLoc {
-						addLeafs(x.X.Type())
-					}
-				case *ssa.Convert:
-					if sl, ok := types.Unalias(x.Type()).Underlying().(*types.Slice); ok {
-						addLeafs(sl.Elem())
+						get("Mdom:"+ms.key, ms.domSort()).total = true
+						get("Mval:"+ms.key, ms.valSort()).total = true
+						get("Mlen:"+ms.key, bvSort(64)).total = true
 					}
 				case *ssa.Defer, *ssa.Go:
 					anything = true
@@ -824,16 +897,16 @@ func (in *inst) loopWrites(l *loopInfo) (keys map[string]string, anything bool) 
 					case *ssa.Builtin:
 						switch fn.Name() {
 						case "append", "copy":
-							addLeafs(types.Unalias(cc.Args[0].Type()).Underlying().(*types.Slice).Elem())
+							addElems(types.Unalias(cc.Args[0].Type()).Underlying().(*types.Slice).Elem())
 						case "delete":
 							ms := fv.mapSorts(cc.Args[0].Type())
 							if ms.ok {
-								keys["Mdom:"+ms.key] = ms.domSort()
-								keys["Mlen:"+ms.key] = bvSort(64)
+								get("Mdom:"+ms.key, ms.domSort()).total = true
+								get("Mlen:"+ms.key, bvSort(64)).total = true
 							}
 						}
 					case *ssa.Function:
-						if ct := fv.eng.contracts[fn]; ct != nil {
+						if ct := fv.eng.contracts[fn]; ct != nil && !ct.Synth {
 							if ct.AssignsAny || len(ct.Assigns) > 0 {
 								anything = true // TODO: refine by assigns types
 							}
@@ -999,7 +1072,10 @@ func (in *inst) cutHeader(n *vnode, l *loopInfo, edges []*vedge, conds []string)
 	pre := st.clone()
 	keys, anything := in.loopWrites(l)
 	if anything {
+		savePriv := fv.private
+		fv.private = "" // the loop body itself may write the private memory
 		fv.havocAll(st, fmt.Sprintf("loop %d of %s contains calls with unknown effects", l.ord, funcKey(in.fn)))
+		fv.private = savePriv
 	} else {
 		var ks []string
 		for k := range keys {
@@ -1007,12 +1083,15 @@ func (in *inst) cutHeader(n *vnode, l *loopInfo, edges []*vedge, conds []string)
 		}
 		sort.Strings(ks)
 		for _, k := range ks {
-			fv.havocHeap(st, k, keys[k], in.loopRegion(k), nil)
+			w := keys[k]
+			lr := in.loopRegion(k)
+			fv.havocHeap(st, k, w.sort, func(l string) string { return and(w.pred(l), lr(l)) }, nil)
 		}
 		a := fv.decl("alloc", "Int")
 		fv.assume("true", "(>= "+a+" "+st.alloc+")")
 		st.alloc = a
 	}
+	st.ghost = nil
 	pnew := map[*ssa.Phi]Val{}
 	for _, phi := range phis {
 		v := fv.unknown(st, phi.Type(), "lp")
@@ -1028,6 +1107,13 @@ func (in *inst) cutHeader(n *vnode, l *loopInfo, edges []*vedge, conds []string)
 	}
 	if in.hdrState == nil {
 		in.hdrState = map[*loopInfo]*hdrSnap{}
+	}
+	for _, lt := range ls.Lets {
+		ce2.pol = 0
+		ce2.vars[lt[0]] = ce2.eval(lt[1])
+	}
+	if ce2.err != nil {
+		fv.specErr(ce2.err)
 	}
 	snapVars := map[string]Val{}
 	for k, v := range ce2.vars {
@@ -1056,16 +1142,29 @@ func (in *inst) invStep(n *vnode, edges []*vedge, conds []string) {
 	ce := in.headerEnv(n, l, pv, st)
 	ce.it0 = snap.st
 	ce.it0vars = snap.vars
+	for _, lt := range ls.Lets {
+		ce.vars[lt[0]] = snap.vars[lt[0]]
+	}
 	pos := l.header.Instrs[0].Pos()
+	esfx := ""
+	if n.from != nil && in.backEdges(l) > 1 {
+		esfx = fmt.Sprintf("/edge%d", in.backEdgeOrd(l, n.from))
+		for i := len(n.from.Instrs) - 1; i >= 0; i-- {
+			if p := n.from.Instrs[i].Pos(); p.IsValid() {
+				pos = p
+				break
+			}
+		}
+	}
 	for _, iv := range ls.Invariants {
 		t := ce.evalGoal(iv.Expr)
-		fv.oblige(fmt.Sprintf("%s#inv-step:%s@loop%d", funcKey(in.fn), iv.Name, l.ord), "inv-step", in.propsFor(iv), st.reach, t, iv.Expr, pos)
+		fv.oblige(fmt.Sprintf("%s#inv-step:%s@loop%d%s", funcKey(in.fn), iv.Name, l.ord, esfx), "inv-step", in.propsFor(iv), st.reach, t, iv.Expr, pos)
 	}
 	for _, sc := range ls.Steps {
 		ce.vars["exited"] = bval("false")
 		ce.vars["continued"] = bval("true")
 		t := ce.evalGoal(sc.Expr)
-		fv.oblige(fmt.Sprintf("%s#step:%s@loop%d", funcKey(in.fn), sc.Name, l.ord), "step", in.propsFor(sc), st.reach, t, sc.Expr, pos)
+		fv.oblige(fmt.Sprintf("%s#step:%s@loop%d%s", funcKey(in.fn), sc.Name, l.ord, esfx), "step", in.propsFor(sc), st.reach, t, sc.Expr, pos)
 	}
 	if ce.err != nil {
 		fv.specErr(ce.err)
@@ -1078,15 +1177,45 @@ func (in *inst) invStep(n *vnode, edges []*vedge, conds []string) {
 		}
 		sort.Strings(ks)
 		for _, k := range ks {
-			hNow := fv.heapOf(st, k, snap.keys[k])
-			hHdr := fv.heapOf(snap.st, k, snap.keys[k])
+			w := snap.keys[k]
+			hNow := fv.heapOf(st, k, w.sort)
+			hHdr := fv.heapOf(snap.st, k, w.sort)
 			if hNow.term == hHdr.term {
 				continue
 			}
 			sk := fv.decl("fl", "Loc")
-			goal := implies(not(in.loopRegion(k)(sk)), eq(fv.loadRaw(hNow, sk), fv.loadRaw(hHdr, sk)))
-			fv.oblige(fmt.Sprintf("%s#loopframe:%s@loop%d", funcKey(in.fn), sanitize(k), l.ord), "frame", in.propsFor(nil), st.reach, goal,
+			// locations allocated since the header are outside the claim
+			goal := implies(and("(< (root "+sk+") "+snap.st.alloc+")", not(and(w.pred(sk), in.loopRegion(k)(sk)))), eq(fv.loadRaw(hNow, sk), fv.loadRaw(hHdr, sk)))
+			fv.oblige(fmt.Sprintf("%s#loopframe:%s@loop%d%s", funcKey(in.fn), sanitize(k), l.ord, esfx), "frame", in.propsFor(nil), st.reach, goal,
 				"loop writes only fresh objects or the function's frame ("+k+")", pos)
 		}
 	}
+}
+
+func (in *inst) backEdges(l *loopInfo) int {
+	n := 0
+	for _, p := range l.header.Preds {
+		if l.body[p] {
+			n++
+		}
+	}
+	return n
+}
+
+// backEdgeOrd: ordinal of the back edge from block b among the loop's back
+// edges, in block order (stable under edits that do not add back edges before it).
+func (in *inst) backEdgeOrd(l *loopInfo, b *ssa.BasicBlock) int {
+	var idx []int
+	for _, p := range l.header.Preds {
+		if l.body[p] {
+			idx = append(idx, p.Index)
+		}
+	}
+	sort.Ints(idx)
+	for i, x := range idx {
+		if x == b.Index {
+			return i
+		}
+	}
+	return -1
 }
